@@ -123,6 +123,9 @@ struct Obs {
     entries: Vec<Vec<u8>>,
     by_key: Vec<Vec<u8>>,
     heads: Vec<([u8; 32], u64)>,
+    /// the key reported with each head (compared only between two observations of the same
+    /// store, never with the model: with equal timestamps it depends on the order of arrival)
+    head_keys: Vec<Vec<u8>>,
     peers: Option<Vec<[u8; 32]>>,
     policy: Vec<u8>,
     cap: Option<u8>,
@@ -142,11 +145,13 @@ fn observe(store: &mut Store, d: u8) -> Result<Obs, String> {
         .map_err(|e| format!("{e:#}"))?
         .map(|e| e.map(|e| ser(&e)).map_err(|e| format!("{e:#}")))
         .collect::<Result<_, _>>()?;
-    let heads: Vec<([u8; 32], u64)> = store
+    let heads_full: Vec<([u8; 32], u64, Vec<u8>)> = store
         .get_latest_for_each_author(ns)
         .map_err(|e| format!("{e:#}"))?
-        .map(|r| r.map(|(a, ts, _k)| (a.to_bytes(), ts)).map_err(|e| format!("{e:#}")))
+        .map(|r| r.map(|(a, ts, k)| (a.to_bytes(), ts, k.to_vec())).map_err(|e| format!("{e:#}")))
         .collect::<Result<_, _>>()?;
+    let heads: Vec<([u8; 32], u64)> = heads_full.iter().map(|(a, ts, _)| (*a, *ts)).collect();
+    let head_keys: Vec<Vec<u8>> = heads_full.into_iter().map(|(_, _, k)| k).collect();
     let peers = store.get_sync_peers(&ns).map_err(|e| format!("{e:#}"))?.map(|i| i.collect::<Vec<_>>());
     let policy = postcard::to_stdvec(&store.get_download_policy(&ns).map_err(|e| format!("{e:#}"))?).unwrap();
     let mut cap = None;
@@ -159,7 +164,7 @@ fn observe(store: &mut Store, d: u8) -> Result<Obs, String> {
             });
         }
     }
-    Ok(Obs { entries, by_key, heads, peers, policy, cap })
+    Ok(Obs { entries, by_key, heads, head_keys, peers, policy, cap })
 }
 
 impl Scenario for Docs {
@@ -402,7 +407,7 @@ impl Docs {
                         for (o, before) in others_before {
                             let after = observe(sut.store(), o).map_err(harness)?;
                             if after != before {
-                                let what = if after.entries != before.entries { "entries" } else if after.heads != before.heads { "heads" } else if after.peers != before.peers { "peers" } else if after.policy != before.policy { "policy" } else if after.cap != before.cap { "capability" } else { "index" };
+                                let what = if after.entries != before.entries { "entries" } else if after.heads != before.heads || after.head_keys != before.head_keys { "heads" } else if after.peers != before.peers { "peers" } else if after.policy != before.policy { "policy" } else if after.cap != before.cap { "capability" } else { "index" };
                                 return Err(Violation::new(format!("collateral/{what}"), format!("step {si}: removing d{d} changed the {what} of d{o}")));
                             }
                         }
@@ -502,7 +507,10 @@ impl Docs {
                                 if a.by_key != b.by_key {
                                     return Err(Violation::new("rebuild/index", format!("step {si}: after reopening without the derived tables the key-ordered query of d{d} returns {} entries, before {}", a.by_key.len(), b.by_key.len())));
                                 }
-                                if &a != b {
+                                // (the key reported with a head is not compared here: with equal
+                                // timestamps the maintained table holds the entry that arrived last,
+                                // which a rebuild cannot know; the statement speaks of heads, i.e. timestamps)
+                                if (&a.entries, &a.peers, &a.policy, &a.cap) != (&b.entries, &b.peers, &b.policy, &b.cap) {
                                     return Err(Violation::new("rebuild/other", format!("step {si}: reopening without derived tables changed other observations of d{d}")));
                                 }
                             }
@@ -524,7 +532,8 @@ impl Docs {
                             for (d, b) in before.iter().enumerate() {
                                 let a = observe(sut.store(), d as u8).map_err(harness)?;
                                 if &a != b {
-                                    return Err(Violation::new("reopen-noop/changed", format!("step {si}: reopening an up-to-date database {times} times changed observations of d{d}")));
+                                    let what = if a.entries != b.entries { "entries" } else if a.by_key != b.by_key { "key-ordered query" } else if a.heads != b.heads { "heads" } else if a.head_keys != b.head_keys { "the key reported with a head" } else if a.peers != b.peers { "peers" } else if a.policy != b.policy { "policy" } else { "capability" };
+                                    return Err(Violation::new("reopen-noop/changed", format!("step {si}: reopening an up-to-date database {times} times changed {what} of d{d}")));
                                 }
                             }
                         }
